@@ -13,6 +13,7 @@ import struct
 SPEC = os.path.join(os.path.dirname(os.path.dirname(os.path.abspath(__file__))), 'spec')
 
 _blob_cache = {}
+DYNAMIC = {}     # tables built at run time (name -> Table), inherited by forked workers
 
 
 def blob_bytes(bid, length):
